@@ -720,6 +720,14 @@ func recCtor(fn string, ign bool, n int, args []argRec) (ids []int, reg string, 
 			R.instScope[R.nextID] = curOpLocked().scopeOr("-")
 		}
 	}
+	if R.storm && len(ids) == 1 {
+		// storm mode records no events: remember which instances this one was constructed with
+		var got []int
+		for _, a := range args {
+			got = append(got, a.Ids...)
+		}
+		stormArgs.Store(ids[0], got)
+	}
 	outs := ids
 	if r := R.regByID[reg]; r != nil && len(r.As) >= 2 && len(ids) == 1 {
 		outs = nil
